@@ -6,6 +6,7 @@ import LnModel.SpecIO
 import LnModel.EmitIO
 import LnModel.MacroIO
 import LnModel.SerdeIO
+import LnModel.PipelineIO
 /-! Line-protocol driver: one s-expression request per line on stdin, one canonical
 s-expression result per line on stdout. -/
 namespace Ln.Driver
@@ -125,7 +126,7 @@ def stepFs (req : Sexp) : Option Sexp :=
   | _ => none
 
 def step (req : Sexp) : Sexp :=
-  match ((((stepFs req).orElse (fun _ => stepAdapters req)).orElse (fun _ => SpecIO.step req)).orElse (fun _ => EmitIO.step req)).orElse (fun _ => MacroIO.step req) |>.orElse (fun _ => SerdeIO.step req) with
+  match ((((stepFs req).orElse (fun _ => stepAdapters req)).orElse (fun _ => SpecIO.step req)).orElse (fun _ => EmitIO.step req)).orElse (fun _ => MacroIO.step req) |>.orElse (fun _ => SerdeIO.step req) |>.orElse (fun _ => PipelineIO.step req) with
   | some r => r
   | none =>
   match req with
